@@ -1,8 +1,487 @@
 package main
 
-// replayObligation turns a solver model into inputs for the real code, when a
-// template exists for the obligation's function. Returns true when the real
-// code reproduced the violation.
-func replayObligation(root, repo, prop string, o *Obligation, payload map[string]interface{}) bool {
-	return false
+import (
+	"bytes"
+	"encoding/json"
+	"fmt"
+	"go/types"
+	"math/big"
+	"os"
+	"os/exec"
+	"path/filepath"
+	"regexp"
+	"strings"
+	"text/template"
+)
+
+// Replay: when a solver refutes an obligation it gives a model. For functions with a replay driver
+// the model values of the driver's inputs are read back (get-value on the refuting query), turned
+// into a Go test that calls the REAL function on those inputs and evaluates the runtime form of the
+// clause (an independent oracle written next to the driver), and the test is injected into the
+// package with `go test -overlay` (nothing is written under the repository). Only when that test
+// fails is the violation reported as reproduced; otherwise the VIOLATION line ends with
+// no-failing-input-found and the replay file carries the model and the solver output.
+
+type replayDriver struct {
+	// terms the driver needs, as SMT terms over the query's constants (built with ctx helpers)
+	terms func(c *Ctx) (map[string]string, bool)
+	pkg   string // package directory relative to the repo
+	exp   bool   // lives in the exp module
+	tmpl  string // Go test template; fields are the decoded inputs
+}
+
+var replayDrivers = map[string]*replayDriver{
+	"(zapcore.Field).AddTo": {
+		pkg: "zapcore",
+		terms: func(c *Ctx) (map[string]string, bool) {
+			f := c.paramConst("f")
+			if f == "" {
+				return nil, false
+			}
+			ft := c.fn.Params[0].Type()
+			return map[string]string{
+				"Type":    fmt.Sprintf("(%s %s)", c.selNameByField(ft, "Type"), f),
+				"Integer": fmt.Sprintf("(%s %s)", c.selNameByField(ft, "Integer"), f),
+			}, true
+		},
+		tmpl: `package zapcore
+
+import (
+	"math"
+	"reflect"
+	"testing"
+	"time"
+)
+
+// Replay of a refuted obligation of Field.AddTo: the field type and integer slot come from the
+// solver's model; the oracle below is the documented unpacking of the union.
+func TestReplayVerif(t *testing.T) {
+	typ, integer := FieldType({{.Type}}), int64({{.Integer}})
+	var want interface{}
+	switch typ {
+	case BoolType:
+		want = integer == 1
+	case DurationType:
+		want = time.Duration(integer)
+	case Float64Type:
+		want = math.Float64frombits(uint64(integer))
+	case Float32Type:
+		want = math.Float32frombits(uint32(integer))
+	case Int64Type:
+		want = integer
+	case Int32Type:
+		want = int32(integer)
+	case Int16Type:
+		want = int16(integer)
+	case Int8Type:
+		want = int8(integer)
+	case Uint64Type:
+		want = uint64(integer)
+	case Uint32Type:
+		want = uint32(integer)
+	case Uint16Type:
+		want = uint16(integer)
+	case Uint8Type:
+		want = uint8(integer)
+	case UintptrType:
+		want = uintptr(integer)
+	default:
+		t.Skipf("replay driver covers the scalar field types only (type %d)", typ)
+	}
+	enc := NewMapObjectEncoder()
+	Field{Key: "k", Type: typ, Integer: integer}.AddTo(enc)
+	got, ok := enc.Fields["k"]
+	same := ok && reflect.TypeOf(got) == reflect.TypeOf(want)
+	if same {
+		switch w := want.(type) {
+		case float64:
+			same = math.Float64bits(w) == math.Float64bits(got.(float64))
+		case float32:
+			same = math.Float32bits(w) == math.Float32bits(got.(float32))
+		default:
+			same = got == want
+		}
+	}
+	if !same {
+		t.Fatalf("REPLAY-VIOLATION Field{Type:%d, Integer:%d}.AddTo delivered %T(%v), the union holds %T(%v)", typ, integer, got, got, want, want)
+	}
+}
+`,
+	},
+	"(*zapcore.counter).IncCheckReset": {
+		pkg: "zapcore",
+		terms: func(c *Ctx) (map[string]string, bool) {
+			cc, t, tick := c.paramConst("c"), c.paramConst("t"), c.paramConst("tick")
+			if cc == "" || t == "" || tick == "" {
+				return nil, false
+			}
+			ct := deref(c.fn.Params[0].Type())
+			resetAt := c.subRefByName(ct, "resetAt", cc)
+			counter := c.subRefByName(ct, "counter", cc)
+			if resetAt == "" || counter == "" {
+				return nil, false
+			}
+			return map[string]string{
+				"ResetAt": fmt.Sprintf("(select %s %s)", c.hget(c.entry, "H:sync_atomic.Int64.v"), resetAt),
+				"Counter": fmt.Sprintf("(select %s %s)", c.hget(c.entry, "H:sync_atomic.Uint64.v"), counter),
+				"Now":     fmt.Sprintf("(|spec:unixNano| %s)", t),
+				"Tick":    tick,
+			}, true
+		},
+		tmpl: `package zapcore
+
+import (
+	"testing"
+	"time"
+)
+
+// Replay of a refuted obligation of counter.IncCheckReset: counter state, time stamp and tick come
+// from the solver's model; the oracle is the window rule of the property.
+func TestReplayVerif(t *testing.T) {
+	resetAt, countBits, now, tick := int64({{.ResetAt}}), int64({{.Counter}}), int64({{.Now}}), int64({{.Tick}})
+	count := uint64(countBits) // (the model value is printed as a signed 64-bit number)
+	var c counter
+	c.resetAt.Store(resetAt)
+	c.counter.Store(count)
+	got := c.IncCheckReset(time.Unix(0, now), time.Duration(tick))
+	wantN, wantReset := uint64(1), now+tick
+	if resetAt > now {
+		wantN, wantReset = count+1, resetAt
+	}
+	if got != wantN || c.counter.Load() != wantN || c.resetAt.Load() != wantReset {
+		t.Fatalf("REPLAY-VIOLATION IncCheckReset(resetAt=%d counter=%d now=%d tick=%d) = %d (counter %d, resetAt %d), want %d (counter %d, resetAt %d)",
+			resetAt, count, now, tick, got, c.counter.Load(), c.resetAt.Load(), wantN, wantN, wantReset)
+	}
+}
+`,
+	},
+	"(zapcore.Level).String": levelDriver("String", `map[Level]string{-1: "debug", 0: "info", 1: "warn", 2: "error", 3: "dpanic", 4: "panic", 5: "fatal"}`, `"Level(%d)"`),
+	"(zapcore.Level).CapitalString": levelDriver("CapitalString", `map[Level]string{-1: "DEBUG", 0: "INFO", 1: "WARN", 2: "ERROR", 3: "DPANIC", 4: "PANIC", 5: "FATAL"}`, `"LEVEL(%d)"`),
+	"(zapcore.Level).Enabled": {
+		pkg: "zapcore",
+		terms: func(c *Ctx) (map[string]string, bool) {
+			l, lvl := c.paramConst("l"), c.paramConst("lvl")
+			return map[string]string{"L": l, "Lvl": lvl}, l != "" && lvl != ""
+		},
+		tmpl: `package zapcore
+
+import "testing"
+
+func TestReplayVerif(t *testing.T) {
+	l, lvl := Level(int8({{.L}})), Level(int8({{.Lvl}}))
+	if got, want := l.Enabled(lvl), lvl >= l; got != want {
+		t.Fatalf("REPLAY-VIOLATION Level(%d).Enabled(%d) = %v, want %v", l, lvl, got, want)
+	}
+}
+`,
+	},
+}
+
+func levelDriver(method, table, dflt string) *replayDriver {
+	return &replayDriver{
+		pkg: "zapcore",
+		terms: func(c *Ctx) (map[string]string, bool) {
+			l := c.paramConst("l")
+			return map[string]string{"L": l}, l != ""
+		},
+		tmpl: `package zapcore
+
+import (
+	"fmt"
+	"testing"
+)
+
+func TestReplayVerif(t *testing.T) {
+	l := Level(int8({{.L}}))
+	names := ` + table + `
+	want, ok := names[l]
+	if !ok {
+		want = fmt.Sprintf(` + dflt + `, l)
+	}
+	if got := l.` + method + `(); got != want {
+		t.Fatalf("REPLAY-VIOLATION Level(%d).` + method + `() = %q, want %q", l, got, want)
+	}
+}
+`,
+	}
+}
+
+// paramConst: the SMT constant standing for parameter name of the function under verification.
+func (c *Ctx) paramConst(name string) string {
+	re := regexp.MustCompile(`^\(declare-const (\|?p_` + regexp.QuoteMeta(name) + `![0-9]+\|?) `)
+	for _, d := range c.decls {
+		if m := re.FindStringSubmatch(d); m != nil {
+			return m[1]
+		}
+	}
+	return ""
+}
+
+// selNameByField: the ADT selector of a struct field, by name.
+func (c *Ctx) selNameByField(t types.Type, field string) string {
+	st, ok := t.Underlying().(*types.Struct)
+	if !ok {
+		return ""
+	}
+	for i := 0; i < st.NumFields(); i++ {
+		if st.Field(i).Name() == field {
+			return c.selName(t, i)
+		}
+	}
+	return ""
+}
+
+// subRefByName: address of a struct-typed field, by name.
+func (c *Ctx) subRefByName(t types.Type, field, base string) string {
+	st, ok := t.Underlying().(*types.Struct)
+	if !ok {
+		return ""
+	}
+	for i := 0; i < st.NumFields(); i++ {
+		if st.Field(i).Name() == field {
+			return c.subRef(t, i, base)
+		}
+	}
+	return ""
+}
+
+// decodeSMTInt turns a get-value answer for an integer / bit-vector / Bool term into a Go literal.
+func decodeSMTInt(v string, signedBits int) (string, bool) {
+	v = strings.TrimSpace(v)
+	switch {
+	case v == "true" || v == "false":
+		return v, true
+	case strings.HasPrefix(v, "#x"), strings.HasPrefix(v, "#b"):
+		n := new(big.Int)
+		base := 16
+		if strings.HasPrefix(v, "#b") {
+			base = 2
+		}
+		if _, ok := n.SetString(v[2:], base); !ok {
+			return "", false
+		}
+		bits := (len(v) - 2) * 4
+		if base == 2 {
+			bits = len(v) - 2
+		}
+		if signedBits != 0 && n.Bit(bits-1) == 1 {
+			n.Sub(n, new(big.Int).Lsh(big.NewInt(1), uint(bits)))
+		}
+		return n.String(), true
+	case strings.HasPrefix(v, "(- "):
+		inner := strings.TrimSuffix(strings.TrimPrefix(v, "(- "), ")")
+		if _, ok := new(big.Int).SetString(strings.TrimSpace(inner), 10); ok {
+			return "-" + strings.TrimSpace(inner), true
+		}
+	default:
+		if _, ok := new(big.Int).SetString(v, 10); ok {
+			return v, true
+		}
+	}
+	return "", false
+}
+
+// getValues re-runs the refuting query asking for the values of terms in the model found.
+func getValues(file string, terms map[string]string) (map[string]string, string) {
+	b, err := os.ReadFile(file)
+	if err != nil {
+		return nil, err.Error()
+	}
+	var names, ts []string
+	for k, t := range terms {
+		names = append(names, k)
+		ts = append(ts, t)
+	}
+	q := strings.Replace(string(b), "(get-model)", "(get-value ("+strings.Join(ts, " ")+"))", 1)
+	qf := strings.TrimSuffix(file, ".smt2") + ".values.smt2"
+	os.WriteFile(qf, []byte(q), 0o644)
+	for _, solver := range [][]string{{"z3-new", "-T:20", qf}, {"/usr/bin/z3", "-T:20", qf}} {
+		var out bytes.Buffer
+		cmd := exec.Command(solver[0], solver[1:]...)
+		cmd.Stdout = &out
+		cmd.Stderr = &out
+		cmd.Run()
+		txt := out.String()
+		if !strings.HasPrefix(strings.TrimSpace(txt), "sat") {
+			continue
+		}
+		body := strings.TrimSpace(strings.TrimPrefix(strings.TrimSpace(txt), "sat"))
+		vals := parseGetValue(body)
+		if len(vals) != len(ts) {
+			return nil, txt
+		}
+		res := map[string]string{}
+		for i, n := range names {
+			res[n] = vals[i]
+		}
+		return res, txt
+	}
+	return nil, "no solver reproduced a model for the value query"
+}
+
+// parseGetValue splits "((t1 v1) (t2 v2) ...)" into the values, in order.
+func parseGetValue(s string) []string {
+	s = strings.TrimSpace(s)
+	if !strings.HasPrefix(s, "(") {
+		return nil
+	}
+	s = s[1 : len(s)-1]
+	var out []string
+	depth, start := 0, -1
+	for i, r := range s {
+		switch r {
+		case '(':
+			if depth == 0 {
+				start = i
+			}
+			depth++
+		case ')':
+			depth--
+			if depth == 0 && start >= 0 {
+				pair := s[start+1 : i]
+				// value = last top-level s-expression of the pair
+				out = append(out, lastSexpr(pair))
+				start = -1
+			}
+		}
+	}
+	return out
+}
+
+func lastSexpr(s string) string {
+	s = strings.TrimSpace(s)
+	if strings.HasSuffix(s, ")") {
+		depth := 0
+		for i := len(s) - 1; i >= 0; i-- {
+			switch s[i] {
+			case ')':
+				depth++
+			case '(':
+				depth--
+				if depth == 0 {
+					return s[i:]
+				}
+			}
+		}
+	}
+	if i := strings.LastIndexAny(s, " \n\t"); i >= 0 {
+		return s[i+1:]
+	}
+	return s
+}
+
+// replayObligation: true when the real code reproduced the violation on the model's inputs.
+func replayObligation(root, repo, prop string, c *Ctx, o *Obligation, payload map[string]interface{}) bool {
+	if c == nil || c.fn == nil || o.File == "" {
+		return false
+	}
+	id := shortID(c.fn.String())
+	d := replayDrivers[id]
+	if d == nil {
+		payload["replay"] = "no replay driver for " + id + " (the model and the solver output are in this file)"
+		return false
+	}
+	terms, ok := d.terms(c)
+	if !ok {
+		payload["replay"] = "replay driver for " + id + ": inputs not found in the query"
+		return false
+	}
+	vals, raw := getValues(o.File, terms)
+	if vals == nil {
+		payload["replay"] = map[string]interface{}{"driver": id, "error": "could not read the model values back", "solver_output": truncate(raw, 2000)}
+		return false
+	}
+	inputs := map[string]string{}
+	for k, v := range vals {
+		lit, ok := decodeSMTInt(v, 64)
+		if !ok {
+			payload["replay"] = map[string]interface{}{"driver": id, "error": "model value of " + k + " is not a number: " + truncate(v, 200)}
+			return false
+		}
+		inputs[k] = lit
+	}
+	var src bytes.Buffer
+	if err := template.Must(template.New("t").Parse(d.tmpl)).Execute(&src, inputs); err != nil {
+		return false
+	}
+	dir := filepath.Join(root, "out", "replay", prop)
+	os.MkdirAll(dir, 0o755)
+	testFile := filepath.Join(dir, sanitize(truncate(o.Name, 100))+"_replay_test.go")
+	os.WriteFile(testFile, src.Bytes(), 0o644)
+	out, failed := runOverlayTest(repo, d.pkg, d.exp, testFile)
+	reproduced := failed && strings.Contains(out, "REPLAY-VIOLATION")
+	payload["replay"] = map[string]interface{}{
+		"driver": id, "inputs": inputs, "test_file": testFile, "package": d.pkg,
+		"command": fmt.Sprintf("govc replay %s", testFile), "output": truncate(out, 3000), "reproduced_on_real_code": reproduced,
+	}
+	return reproduced
+}
+
+// runOverlayTest injects testFile into repo/pkg through -overlay and runs TestReplayVerif.
+func runOverlayTest(repo, pkg string, exp bool, testFile string) (string, bool) {
+	pkgDir := filepath.Join(repo, pkg)
+	if exp {
+		pkgDir = filepath.Join(repo, "exp", pkg)
+	}
+	tmp, err := os.MkdirTemp("", "govc-replay")
+	if err != nil {
+		return err.Error(), false
+	}
+	defer os.RemoveAll(tmp)
+	ov := map[string]map[string]string{"Replace": {filepath.Join(pkgDir, "zz_verif_replay_test.go"): testFile}}
+	b, _ := json.Marshal(ov)
+	ovf := filepath.Join(tmp, "ov.json")
+	os.WriteFile(ovf, b, 0o644)
+	cmd := exec.Command("bash", "-c", "ulimit -v 8000000; exec go test -overlay "+ovf+" -vet=off -count=1 -timeout 60s -run '^TestReplayVerif$' .")
+	cmd.Dir = pkgDir
+	cmd.Env = append(os.Environ(), "GOFLAGS=-mod=mod", "GOPROXY=off", "GOSUMDB=off", "GOTOOLCHAIN=local")
+	var out bytes.Buffer
+	cmd.Stdout = &out
+	cmd.Stderr = &out
+	err = cmd.Run()
+	return out.String(), err != nil
+}
+
+// cmdReplay re-runs a stored replay test: govc replay <test file or replay json> [--repo dir]
+func cmdReplay(args []string) int {
+	repo := "/repo"
+	var path string
+	for i := 0; i < len(args); i++ {
+		if args[i] == "--repo" && i+1 < len(args) {
+			repo = args[i+1]
+			i++
+		} else {
+			path = args[i]
+		}
+	}
+	if path == "" {
+		fmt.Println("usage: govc replay <replay json | replay test file> [--repo dir]")
+		return 2
+	}
+	pkg, exp, testFile := "", false, path
+	if strings.HasSuffix(path, ".json") {
+		b, err := os.ReadFile(path)
+		if err != nil {
+			fmt.Println(err)
+			return 2
+		}
+		var j map[string]interface{}
+		json.Unmarshal(b, &j)
+		r, _ := j["replay"].(map[string]interface{})
+		if r == nil {
+			fmt.Printf("%s\n(no executable replay: %v)\n", b, j["replay"])
+			return 0
+		}
+		testFile, _ = r["test_file"].(string)
+		pkg, _ = r["package"].(string)
+	}
+	if pkg == "" {
+		pkg = "zapcore"
+	}
+	out, failed := runOverlayTest(repo, pkg, exp, testFile)
+	fmt.Print(out)
+	if failed {
+		return 1
+	}
+	return 0
 }
